@@ -14,6 +14,22 @@ REF_FAST = {126208, 126464, 126720, 126983, 126984, 126985, 126986, 126987, 1269
 DEF_TX_FAST = [126208, 126464, 126996, 126998]      # fast-packet PGNs every device transmits by default (group function, PGN lists, product/configuration information)
 
 
+def _coq_list(name):
+    """the reference classification lists live in coq/Spec/PgnClassRef.v (single source for the theorems and for these oracles)"""
+    import os, re
+    try:
+        txt = open(os.path.join(os.path.dirname(os.path.dirname(os.path.abspath(__file__))), 'coq', 'Spec', 'PgnClassRef.v')).read()
+        txt = re.sub(r'\(\*.*?\*\)', ' ', txt, flags=re.S)
+        m = re.search(r'Definition %s : list Z :=\s*\[(.*?)\]\.' % name, txt, flags=re.S)
+        return {int(x) for x in re.findall(r'\d+', m.group(1))}
+    except Exception:
+        return None
+
+
+REF_FAST = _coq_list('ref_fast') or REF_FAST
+REF_SINGLE = _coq_list('ref_single') or REF_SINGLE
+
+
 def ref_class(pgn, cfg):
     """'fast' | 'single' | None (the reference does not know)"""
     if pgn == 126720 or 130816 <= pgn <= 131071:
@@ -74,7 +90,7 @@ def parse_case(line):
     cfg = {}
     for tok in cfgs.split()[1:]:
         k, v = tok.split('=', 1)
-        if k in ('fp0', 'fp1', 'sf0', 'sf1') or k.startswith('tx'):
+        if k in ('fp0', 'fp1', 'sf0', 'sf1', 'onopen') or k.startswith('tx'):
             cfg[k] = [int(x) for x in v.split(',') if x]
         elif k in ('conf', 'pconf', 'prod'):
             cfg[k] = v
